@@ -318,6 +318,29 @@ fn main() {
             };
             visit_as::<Rgb565>(ctx, &Desc::Styled(p, st));
         });
+        // thin or elongated rounded rectangles with oversized, strongly elliptical, unequal radii and ONE
+        // colour for stroke and fill: the radii of the stroke and of the fill area are confined
+        // independently, so a fill pixel can lie outside the stroke scanline of its row (seeded `C01-13`:
+        // the three runs of a row merged into one fill when both colours are equal - 0.004 % of such shapes)
+        let thin_n = run.tier(500_000u64, 20_000_000u64);
+        run.generate("rounded-rect-thin-one-colour", thin_n, false, 0.12, |ctx, idx, rng| {
+            let (a, b) = (rng.u32r(1, 7), rng.u32r(8, 44));
+            let size = match idx % 3 {
+                0 => (a, b),
+                1 => (b, a),
+                _ => (rng.u32r(10, 40), rng.u32r(10, 40)),
+            };
+            let mut r = |rng: &mut egmon::Rng| match rng.below(5) {
+                0 => (0, 0),
+                1 => (rng.u32r(0, size.0), rng.u32r(0, size.1)),
+                _ => (rng.u32r(0, size.0 * 3 + 2), rng.u32r(0, size.1 * 3 + 2)),
+            };
+            let radii = [r(rng), r(rng), r(rng), r(rng)];
+            let colour = rng.u32r(1, 3);
+            let st = StyleD { fill: Some(colour), stroke: Some(if idx % 8 == 7 { colour % 3 + 1 } else { colour }), width: rng.u32r(1, 3), align: rng.below(3) as u8, dotted: false };
+            let p = Prim::RRect { tl: (rng.i32r(-6, 30), rng.i32r(-6, 30)), size, radii };
+            visit_as::<Rgb565>(ctx, &Desc::Styled(p, st));
+        });
         // --- triangles and lines on a 7x7 vertex grid, polylines
         let tri_n = run.tier(80_000u64, 1_500_000u64);
         run.generate("triangle-line-grid", tri_n, false, 0.15, |ctx, idx, rng| {
